@@ -128,7 +128,11 @@ PROPS_SLICE = [
     "shape", "inserted_row_idxs", "inserted_column_idxs", "population_counts", "means", "sums",
     "columns_scale_mean", "rows_scale_mean", "pairwise_indices", "table_name", "name", "row_codes",
     "column_codes", "rows_dimension_fills", "smoothed_column_proportions", "column_std_err",
-    "row_share_sum", "payload_order", "dimension_types",
+    "row_share_sum", "payload_order", "dimension_types", "row_weighted_bases", "column_weighted_bases",
+    "columns_scale_median_margin", "rows_scale_median_margin", "columns_scale_mean_margin",
+    "rows_scale_mean_margin", "columns_scale_median", "rows_scale_median", "table_weighted_bases",
+    "row_std_err", "population_counts_moe", "pairwise_means_indices", "rows_margin_proportion",
+    "columns_margin_proportion", "table_std_err", "row_unweighted_bases", "min_base_size_mask",
 ]
 PROPS_STRAND = [
     "counts", "unweighted_counts", "table_proportions", "row_labels", "rows_base", "rows_margin",
@@ -141,6 +145,8 @@ PROPS_STRAND = [
 def norm(v):
     import numpy as np
 
+    if type(v).__name__ == "MinBaseSizeMask":
+        return (norm(v.row_mask), norm(v.column_mask), norm(v.table_mask))
     if callable(v):
         try:
             v = v()
@@ -164,6 +170,8 @@ def read_partition(p, order):
     names = list(names)
     if order == "reverse":
         names = names[::-1]
+    elif isinstance(order, int):
+        random.Random(order).shuffle(names)
     out = {}
     for n in names:
         try:
@@ -181,6 +189,8 @@ def read_cube(resp, transforms, order="forward", population=1000):
     idxs = list(range(len(parts)))
     if order == "reverse":
         idxs = idxs[::-1]
+    elif isinstance(order, int):
+        random.Random(order + 1).shuffle(idxs)
     res = {}
     for i in idxs:
         res[i] = read_partition(parts[i], order)
@@ -197,7 +207,8 @@ TRANSFORMS = [
     {"rows_dimension": {"order": {"type": "label", "direction": "ascending", "fixed": {"top": [2, 99], "bottom": [1]}}},
      "columns_dimension": {"order": {"type": "opposing_element", "element_id": 1, "measure": "col_percent", "fixed": {"bottom": [1, 99]}}}},
     {"rows_dimension": {"insertions": [{"function": "subtotal", "name": "t", "anchor": "top", "args": [1, 2], "id": 1},
-                                        {"function": "subtotal", "name": "d", "anchor": 2, "kwargs": {"positive": [1], "negative": [2]}, "id": 2}]}},
+                                        {"function": "subtotal", "name": "d", "anchor": 2, "kwargs": {"positive": [1], "negative": [2]}, "id": 2}]},
+     "columns_dimension": {"insertions": [{"function": "subtotal", "name": "cd", "anchor": "bottom", "kwargs": {"positive": [1], "negative": [2]}, "id": 1}]}},
 ]
 
 
@@ -248,6 +259,10 @@ class Histories(EnumContract):
         rev = read_cube(copy.deepcopy(resp0), copy.deepcopy(tr0), "reverse")
         if rev != pristine:
             bad.append("schedule-independent")
+        for sched in case.get("schedules", (11, 12, 13)):
+            if read_cube(copy.deepcopy(resp0), copy.deepcopy(tr0), sched) != pristine:
+                bad.append("schedule-independent")
+                break
         # re-used argument objects: first cube reads in reverse, second forward, third again
         resp, tr = copy.deepcopy(resp0), copy.deepcopy(tr0)
         a = read_cube(resp, tr, "reverse")
